@@ -242,6 +242,16 @@ func c02Build(c c02Case) (c02Pkt, bool) {
 	return k, true
 }
 
+// c02OtherPacket: payload flag, adaptation field of 7 bytes, bytes unlike any packet of the cases.
+var c02OtherPacket = func() packet.Packet {
+	var p packet.Packet
+	for i := range p {
+		p[i] = byte(0xE0 | i&0x0F)
+	}
+	p[0], p[1], p[2], p[3], p[4], p[5] = 0x47, 0x1E, 0xEE, 0x3E, 7, 0x00
+	return p
+}()
+
 func c02Partition(res *engine.Result, ctx string, k c02Pkt, p *packet.Packet) {
 	want := k.bytes()
 	if *p != want {
@@ -267,6 +277,14 @@ func c02Partition(res *engine.Result, ctx string, k c02Pkt, p *packet.Packet) {
 	}
 	if len(hdr)+len(k.pay) != 188 || !bytes.Equal(hdr, want[:len(hdr)]) {
 		res.Failf(ctx+"|Header|partition", "afLen %d: header accessor returns %d bytes, payload is %d", k.afLen, len(hdr), len(k.pay))
+	}
+	// the results describe THIS packet: the same accessors on another packet must not change them
+	other := c02OtherPacket
+	_ = packet.Header(&other)
+	_, _ = packet.Payload(&other)
+	_, _ = other.Payload()
+	if !bytes.Equal(fp, k.pay) || !bytes.Equal(mp, k.pay) || !bytes.Equal(hdr, want[:len(hdr)]) {
+		res.Failf(ctx+"|accessor-result-changed-by-a-call-on-another-packet", "afLen %d: header/payload slices obtained from one packet changed when the accessors were called on another", k.afLen)
 	}
 	for i := range mp {
 		mp[i] ^= 0xFF
